@@ -545,6 +545,13 @@ def judge_runtime(R, S, tier, seed, props, given=None):
         entered = collections.Counter(e["ID"] for e in ev if e["Kind"] == "enter")
         failed = [e["ID"] for e in ev if e["Kind"] == "fail"]
         stats[sp["kind"]] += 1
+        # what the semantics allows for the model's emission under this failure set / cancellation (None: not enumerated);
+        # a recorded finding is recognised only where the model itself predicts that outcome for this declaration
+        allowed = S.get("allowed", {}).get(id(sp))
+        def model_allows(pred, coarse):
+            if allowed is None:
+                return coarse
+            return any(pred(t) for t in allowed)
         def viol(prop, fid, text, extra=None):
             if prop not in props:
                 return
@@ -607,7 +614,7 @@ def judge_runtime(R, S, tier, seed, props, given=None):
                 elif rs["Err"] not in ["prov:" + x for x in failed]:
                     # (any provider that really failed will do: a provider that honours its context fails too once the
                     # errgroup has cancelled it)
-                    fid = "K6-main-ctx-wait-substitutes-error" if (kc["K6"] and rs["Err"] == "ctx:canceled") else None
+                    fid = "K6-main-ctx-wait-substitutes-error" if (rs["Err"] == "ctx:canceled" and model_allows(lambda t: t.startswith("err:ctx"), kc["K6"])) else None
                     viol("C06", fid, "%s: provider %s failed but the injector returned %s instead of that failure%s" % (
                         sp["Name"], pid(f), rs["Err"], " (main-thread ctx-aware wait observed the errgroup's cancellation)" if fid else ""))
             deps = dependents(ret, provs).get(f, set())
@@ -617,7 +624,7 @@ def judge_runtime(R, S, tier, seed, props, given=None):
                         viol("C06", None, "%s: %s was invoked although it depends on the failed provider %s" % (sp["Name"], pid(d), pid(f)))
             if rs["Returned"] and rs.get("Leaked", 0) > 0:
                 main_fail = any(c["head"] == "P%d" % f for c in E["threads"][0])
-                fid = "K8-main-error-return-leaks-goroutine" if (kc["K8"] and main_fail) else None
+                fid = "K8-main-error-return-leaks-goroutine" if (main_fail and model_allows(lambda t: t.endswith("+leak"), kc["K8"])) else None
                 viol("C08", fid, "%s: after the injector returned (%s failed) %d goroutine(s) remain blocked: %s" % (
                     sp["Name"], pid(f), rs["Leaked"], [a[:60] for a in (rs.get("LeakedAt") or [])][:2]))
         elif sp["kind"] == "fail2":
@@ -628,7 +635,7 @@ def judge_runtime(R, S, tier, seed, props, given=None):
                 if not rs.get("Err"):
                     viol("C06", None, "%s: providers %s failed but the injector returned no error" % (sp["Name"], failed))
                 elif rs["Err"] not in ["prov:" + x for x in failed]:
-                    fid = "K6-main-ctx-wait-substitutes-error" if (kc["K6"] and rs["Err"] == "ctx:canceled") else None
+                    fid = "K6-main-ctx-wait-substitutes-error" if (rs["Err"] == "ctx:canceled" and model_allows(lambda t: t.startswith("err:ctx"), kc["K6"])) else None
                     viol("C06", fid, "%s: providers %s failed but the injector returned %s" % (sp["Name"], failed, rs["Err"]))
             if rs["Returned"] and rs.get("Leaked", 0) > 0:
                 # a failure recorded by the errgroup cancels the derived context, which releases every ctx-aware wait:
@@ -637,11 +644,11 @@ def judge_runtime(R, S, tier, seed, props, given=None):
                     viol("C08", None, "%s: %s failed in a goroutine and %s on the injector's goroutine; after the injector returned %d goroutine(s) remain blocked: %s" % (
                         sp["Name"], pid(fa), pid(fb), rs["Leaked"], [a[:60] for a in (rs.get("LeakedAt") or [])][:2]))
                 else:
-                    fid = "K8-main-error-return-leaks-goroutine" if (kc["K8"] and pid(fb) in failed) else None
+                    fid = "K8-main-error-return-leaks-goroutine" if (pid(fb) in failed and model_allows(lambda t: t.endswith("+leak"), kc["K8"])) else None
                     viol("C08", fid, "%s: after the injector returned (%s failed) %d goroutine(s) remain blocked" % (sp["Name"], failed, rs["Leaked"]))
         elif sp["kind"] == "cancel":
             if not rs["Returned"]:
-                fid = "K7-no-error-result-hangs-on-cancel" if kc["K7"] else None
+                fid = "K7-no-error-result-hangs-on-cancel" if (kc["K7"] and model_allows(lambda t: t == "stuck", True)) else None
                 viol("C07", fid, "%s: context cancelled (%s) and the injector never returns" % (sp["Name"], sp["CancelOn"]))
                 continue
             if not rs.get("Err"):
@@ -791,6 +798,7 @@ def conformance(R, S, specs, results, limit=4000):
         if exhausted:
             fuel += 1
             continue
+        S.setdefault("allowed", {})[id(sp)] = allowed
         if obs not in allowed:
             bad.append((sp["Name"], {a: b for a, b in sp.items() if a in ("kind", "Fail", "CancelOn", "DelayIn")}, obs, sorted(allowed), S["E"].decls[sp["k"]]))
     R.oblige("conformance: the outcome of every run of a compiled injector is one the interleaving semantics T1F allows for the model's emission (%d runs, %d skipped: search fuel)" % (n, fuel),
@@ -835,10 +843,11 @@ def run_failure_property(prop, tier, seed, note):
     diffs = emission_diffs(S)
     R.oblige("correspondence: text of the emitted functions = model emission (wait flavours, error checks, closes, eg.Wait form) on %d declarations" % len(S["ok"]),
              not diffs, "%d differ; first: %s" % (len(diffs), [d[1:] for d in diffs[:1]]))
-    n, stats = judge_runtime(R, S, tier, seed, {prop})
     conf_bad = []
-    if S.get("runtime", (None,))[0] is not None:
-        conf_bad = conformance(R, S, S["runtime"][0], S["runtime"][1])
+    rt0 = run_runtime(S, tier, seed)
+    if rt0[0] is not None:
+        conf_bad = conformance(R, S, rt0[0], rt0[1])
+    n, stats = judge_runtime(R, S, tier, seed, {prop})
     if prop == "C08":
         explorer_agreement(R, S, tier)
     if diffs and not R.violations and S.get("runtime", (None,))[0] is not None:
